@@ -47,7 +47,7 @@ def gen_frag(rnd, first, cont):
 def gen_model(rnd):
     secs = []
     for _ in range(rnd.randint(1, 4)):
-        name = rnd.choice(['A', 'Sec B', 'X-1', 'Container', 'A'])
+        name = rnd.choice(['A', 'Sec B', 'X-1', 'Container', 'A', 'Séc ü'])
         entries = []
         for _ in range(rnd.randint(0, 4)):
             key = rnd.choice(['K', 'Key-2', 'k9', 'K'])
@@ -58,17 +58,25 @@ def gen_model(rnd):
     return secs
 
 
+CMT_TEXT = ['c', ' d', ' [not a section]', 'k=v', ' für Notfälle', ' 日本語', 'é', ' 𝄞𝄞 x', ' — dash', ' Länge ü', 'ß', ' a\u00a0b', '']
+
+
+def cmt(rnd, cont=False):
+    """a comment line: # or ;, any text incl. multi-byte characters, optionally ending in a backslash (which does not continue it)"""
+    return rnd.choice(['', '', '\t', ' ']) + rnd.choice('#;') + rnd.choice(CMT_TEXT) + rnd.choice(['', '', ' ', '\\' if cont else '']) + '\n'
+
+
 def render(rnd, secs, plain=False):
     out = ''
     if not plain:
         for _ in range(rnd.randint(0, 2)):
-            out += rnd.choice(['# top comment\n', '\n', '; x\\\n', '  \n'])
+            out += rnd.choice(['# top comment\n', '\n', '; x\\\n', '  \n', cmt(rnd, True), cmt(rnd)])
     for name, entries in secs:
         out += f'[{name}]\n'
         for key, frags in entries:
             if not plain:
                 for _ in range(rnd.randint(0, 2)):
-                    out += rnd.choice(['#c\n', '; d\n', '\n', '  \n', '\t# e\n', '# [not a section]\n', '#k=v\\\n'])
+                    out += rnd.choice(['#c\n', '; d\n', '\n', '  \n', '\t# e\n', '# [not a section]\n', '#k=v\\\n', cmt(rnd, True), cmt(rnd), cmt(rnd)])
             ind = '' if plain else rnd.choice(['', '', ' ', '\t', '  '])
             ws1 = '' if plain else rnd.choice(['', '', ' ', '  ', '\t'])
             ws2 = '' if plain else rnd.choice(['', '', ' ', '\t '])
@@ -79,7 +87,7 @@ def render(rnd, secs, plain=False):
                     out += '\\' + ('' if plain else ' ' * rnd.choice([0, 0, 1, 3])) + '\n'
                     if not plain:
                         for _ in range(rnd.randint(0, 2)):
-                            out += rnd.choice(['#c\n', ';d \\\n', '# [x]\n'])
+                            out += rnd.choice(['#c\n', ';d \\\n', '# [x]\n', cmt(rnd, True).lstrip(' \t'), cmt(rnd).lstrip(' \t')])
             out += ('' if plain else rnd.choice(['', '', ' ', '\t', '  '])) + '\n'
     if not plain and out.endswith('\n') and rnd.random() < 0.3:
         out = out[:-1]
